@@ -552,6 +552,58 @@ def rule_inverse_tables(rep, F):
                 rep.violation("RW-inverse", "%s|%d..%d" % (n1, lo, hi), "%s maps %d..%d to %d..%d but %s does not map that range back (its table: %s): such constructor data does not survive a round trip" % (n1, lo, hi, ilo, ihi, n2, [(l2, h2 if h2 < (1 << 63) else "max", r2) for l2, h2, r2 in t2]), {})
 
 
+def rule_rw_group(rep, F, inv):
+    """a sequence that the writer splits over several map keys (Plutus scripts by language) and the reader re-assembles key by key comes
+    back grouped: equality of the carrying type must not depend on the order across groups"""
+    rep.rule("RW-group", "a field that a record-map writer emits under several keys (one key per group of its elements) and that the reader re-assembles group by group has an equality that is insensitive to the order across groups; a derived sequence equality makes a value whose elements are not already grouped differ from its own round trip")
+    n = 0
+    for T, wf in sorted(inv.ser.items()):
+        r = inv.result(wf)
+        if r["status"] != "ok":
+            continue
+        maps = [c for c in record_containers(r, "map") if c["keys"] and all(isinstance(k, int) for k in c["keys"])]
+        per_field = {}
+        for c in maps:
+            for k, v in zip(c["keys"], c["vals"] + [None] * len(c["keys"])):
+                names = set()
+                if isinstance(v, str) and v.startswith("container@"):
+                    ln = int(v.split("@")[1])
+                    for c2 in r["containers"]:
+                        if c2["line"] == ln and isinstance(c2["declared"], str):
+                            names |= set(re.findall(r"[a-z_][a-z_0-9]*", c2["declared"]))
+                names -= {"self", "some", "elems", "collect", "scripts", "view", "version", "N", "wit_set", "raw_parts", "tx_witnesses_set"}
+                for nm in names:
+                    per_field.setdefault(nm, set()).add(k)
+        adt = F.adts.get(T)
+        if not adt or adt["kind"] != "struct":
+            continue
+        ftypes = {f["name"]: f["ty"] for f in adt["variants"][0]["fields"]}
+        for fld, keys in sorted(per_field.items()):
+            if len(keys) < 2 or fld not in ftypes:
+                continue
+            n += 1
+            rep.inst("RW-group")
+            m = re.search(r"([A-Za-z_0-9:]+)>?$", ftypes[fld].replace("std::option::Option<", "").rstrip(">"))
+            ety = m.group(1) if m else ftypes[fld]
+            cands = [a for a in F.adts if a == ety or a.endswith("::" + ety.rsplit("::", 1)[-1])]
+            if len(cands) != 1:
+                continue
+            eq = [im for im in F.impls if (im.get("trait") or "").startswith("std::cmp::PartialEq") and (im.get("self_adt") or im["self_ty"]) == cands[0]]
+            order_sensitive = False
+            if eq and eq[0].get("derive"):
+                order_sensitive = True
+            elif eq:
+                mid = [m_["id"] for m_ in eq[0]["methods"] if m_["name"] == "eq"]
+                if mid and mid[0] in F.fns:
+                    tos = [(c.to or "") for c in F.calls(mid[0])]
+                    seq_eq = any("Vec<" in t and t.endswith("PartialEq>::eq") or "std::vec::Vec" in t and "PartialEq" in t for t in tos)
+                    norm = any(t.rsplit("::", 1)[-1] in ("sorted", "sort", "sort_by", "collect", "from_iter", "iter", "into_iter", "len", "contains", "all", "any") for t in tos)
+                    order_sensitive = seq_eq and not norm
+            if order_sensitive:
+                rep.violation("RW-group", "%s|%s" % (short_ty(cands[0]), short_ty(T)), "%s.%s is written under keys %s (one key per group) and read back group by group, but %s compares its element sequence as is: a value holding e.g. [V2 script, V1 script] decodes as [V1, V2] and is not equal to the original although the bytes are identical" % (short_ty(T), fld, sorted(keys), short_ty(cands[0])), {})
+    rep.floor("fields written under several keys", 1, n)
+
+
 def rule_int_gate(rep, F):
     from ruleutil import gate_limit
     rep.rule("INT-gate", "Int::from_str builds an Int only on the edge where the magnitude is at most 2^64 - 1 (what the writer's `as u64` / nint argument can express): the premise of the audited casts in the Int writer")
@@ -584,6 +636,7 @@ def check(rep, F, tier, replay=None):
     rule_rw_order(rep, F, inv)
     rule_rw_index(rep, F, inv)
     rule_rw_tag(rep, F, inv)
+    rule_rw_group(rep, F, inv)
     rule_inverse_tables(rep, F)
     rule_pair(rep, F, inv, aud)
     rule_negint(rep, F)
